@@ -134,7 +134,9 @@ func w6Run(t *testing.T, c *simrt.Case, prop string, keepTrace bool) simrt.Resul
 		w.setup()
 	}, nil)
 	simetcd.Install(nil)
-	if len(res.Stats.TaskPanics) > 0 && res.Violation == nil && prop == "C34" {
+	if len(res.Stats.TaskPanics) > 0 && res.Violation == nil && prop == "C34" && simrt.PanicInHarness(res.Stats.TaskPanics[0]) {
+		res.Stats.Probes["HARNESS-PANIC"]++
+	} else if len(res.Stats.TaskPanics) > 0 && res.Violation == nil && prop == "C34" {
 		msg := res.Stats.TaskPanics[0]
 		lines := strings.Split(msg, "\n")
 		var keep []string
